@@ -899,12 +899,15 @@ func NewHaqq(
 		}
 	}
 
-	if loadLatest {
+	if loadLatest && app.LastBlockHeight() > 0 {
 		// Load the persisted capabilities into the in-memory store now rather than in the first
 		// BeginBlock after the start: that lazy initialisation reads the capability store on the
 		// block's shared gas meter, so the first block after a restart consumed more gas than on a
 		// node that never stopped - visible in the gas used of transactions rejected before the
 		// ante handler sets up their own gas meter, and from there in the block gas figure.
+		// Not on a node without committed state: there InitChain loads the capabilities of the
+		// genesis document, and an in-memory store already marked as initialised would make it
+		// skip that (ports are bound a second time, channel capabilities are missing).
 		app.CapabilityKeeper.InitMemStore(app.BaseApp.NewUncachedContext(true, tmproto.Header{}))
 	}
 
